@@ -4,8 +4,8 @@ import (
 	"bytes"
 	"fmt"
 	"regexp"
-	"unicode/utf8"
 	"strings"
+	"unicode/utf8"
 
 	"github.com/ohler55/ojg"
 	"github.com/ohler55/ojg/oj"
